@@ -11,11 +11,18 @@ def rand_hypergraph_spec(rng, nmin=3, nmax=8, emin=2, emax=10, smin=2, smax=5, l
     if lab == "int":
         nodes = list(range(n))
     elif lab == "str":
-        nodes = rng.sample(STR_LABELS, n)
+        pool = STR_LABELS if n <= len(STR_LABELS) else STR_LABELS + ["q%02d" % i for i in range(40)]
+        nodes = rng.sample(pool, n)
     elif lab == "numstr":
-        nodes = rng.sample(["1", "2", "10", "9", "03", "21", "100", "11", "20"], n)
+        pool = ["1", "2", "10", "9", "03", "21", "100", "11", "20"]
+        if n > len(pool):
+            pool = pool + [str(i) for i in range(30, 70)]
+        nodes = rng.sample(pool, n)
     else:
-        nodes = rng.sample([-7, -1, 3, 10, 55, 10**9, 12, 77, 1000], n)
+        pool = [-7, -1, 3, 10, 55, 10**9, 12, 77, 1000]
+        if n > len(pool):
+            pool = pool + [2000 + 7 * i for i in range(40)]
+        nodes = rng.sample(pool, n)
     m = rng.randint(emin, emax)
     edges, seen = [], set()
     for _ in range(m * 4):
